@@ -309,7 +309,9 @@ fn cases(tier: Tier) -> Vec<Case> {
                 for n in [10usize, 100, 1000, 65536, 65537, 70001, 131073] {
                     out.push(Case { ty, lens: vec![n], kinds: vec![if fam == Family::Multipatch { 0 } else { 0 }], closed: false, mvar: 0, foreign: None, fault: None });
                 }
-                for p in [100usize, 1000] {
+                // EVERY part count up to 3000 for one type per family, and a ladder beyond
+                let counts: Vec<usize> = if matches!(ty, Ty::Polyline | Ty::PolygonM | Ty::Multipatch) { (5..=3000).chain([4097, 5000, 8193]).collect() } else { vec![100, 1000, 2049, 4097] };
+                for p in counts {
                     out.push(Case { ty, lens: vec![2; p], kinds: (0..p).map(|i| if fam == Family::Multipatch { (i % 6) as u8 } else { (i % 2) as u8 * (fam == Family::Polygon) as u8 }).collect(), closed: false, mvar: 0, foreign: None, fault: None });
                 }
             }
@@ -414,7 +416,7 @@ pub fn check(tier: Tier) -> i32 {
             tier,
             level: "model_checking",
             engine: "E2 dense (parts, points-per-part) grid on the real WritableShape::size_in_bytes / write_to and ShapeWriter record header",
-            rule: "13 types x every part-length vector with <= maxp parts and lengths min..=maxl (full product up to 3 parts, {min, min+1, maxl} above) x kind patterns x {open, closed rings}, plus a deterministic ladder (1 x {10,100,1000,65536} points; {100,1000} parts x 2 points); plus shapes READ from hand-assembled size-consistent records (multipart types, 0..5 points, every ascending part start array of 0..3 entries, M block present / absent) whenever the reader accepts them; plus one shape per type written twice through a destination whose operation k (0..40) fails once with Interrupted / WouldBlock / TimedOut: when both writes report success the file equals the undisturbed one; non-trivial = more than one vertex",
+            rule: "13 types x every part-length vector with <= maxp parts and lengths min..=maxl (full product up to 3 parts, {min, min+1, maxl} above) x kind patterns x {open, closed rings}, plus a deterministic ladder (1 x {10,100,1000,65536} points; EVERY part count 5..3000 for Polyline / PolygonM / Multipatch and {2049, 4097, 5000, 8193} parts x 2 points); plus shapes READ from hand-assembled size-consistent records (multipart types, 0..5 points, every ascending part start array of 0..3 entries, M block present / absent) whenever the reader accepts them; plus one shape per type written twice through a destination whose operation k (0..40) fails once with Interrupted / WouldBlock / TimedOut: when both writes report success the file equals the undisturbed one; non-trivial = more than one vertex",
             bounds: json!({"max_parts": tier.pick(4, 6), "max_len": tier.pick(5, 8), "cases": cs.len()}),
             exhaustive: true,
             assumptions: vec!["'random larger shapes' of the statement are replaced by the fixed ladder; sizes are affine in (parts, points), the grid pins every coefficient and the constant separately".into()],
